@@ -141,7 +141,7 @@ fn spec_update(b: &Bundle, node: &EndpointID, rt: u128, now: u64) -> (bool, Opti
 
 fn identity(b: &Bundle) -> (String, u64, u64, bool, u64) {
     let frag = b.primary.bundle_control_flags & 1 == 1;
-    (b.primary.source.to_string(), b.primary.creation_timestamp.dtntime(), b.primary.creation_timestamp.seqno(), frag,
+    (eid_text(&b.primary.source), b.primary.creation_timestamp.dtntime(), b.primary.creation_timestamp.seqno(), frag,
      if frag { b.primary.fragmentation_offset } else { 0 })
 }
 
@@ -287,12 +287,15 @@ pub fn exec(line: &str, _model: &mut Model) -> Option<Exec> {
             let (i1, i2) = (b1.id(), b2.id());
             let mut e = Exec::new(format!("ok {} {} {}", hex(i1.as_bytes()), hex(i2.as_bytes()), i1 == i2));
             let same_identity = identity(&b1) == identity(&b2);
+            // the ID format written by the harness: the known finding covers exactly the collisions this format has
+            // by itself ('-' inside a source string); any other collision or split is a failure of its own
+            let honest = |b: &Bundle| -> String { let (s, ts, sq, fr, off) = identity(b); if fr { format!("{}-{}-{}-{}", s, ts, sq, off) } else { format!("{}-{}-{}", s, ts, sq) } };
             if (i1 == i2) != same_identity {
-                if i1 == i2 && b1.primary.source.to_string() != b2.primary.source.to_string() {
+                if i1 == i2 && eid_text(&b1.primary.source) != eid_text(&b2.primary.source) && honest(&b1) == honest(&b2) {
                     e.known_key = "id-separator-ambiguity".into();
                     e.oracle_fail = Some(format!("bundles with different sources share the ID {}", i1));
                 } else if i1 == i2 {
-                    e.oracle_fail = Some(format!("bundles with the same source but different identity fields share the ID {}", i1));
+                    e.oracle_fail = Some(format!("bundles with different identity fields ({:?} / {:?}) share the ID {}", identity(&b1), identity(&b2), i1));
                 } else {
                     e.oracle_fail = Some(format!("bundles with equal identity fields have different IDs {} / {}", i1, i2));
                 }
@@ -1052,6 +1055,31 @@ fn gen_c13(rng: &mut Rng, ctx: &mut Ctx, rep: &mut Report, emit: Emit) {
         };
         emit(ctx, rep, format!("idpair {} | {}", show_bundle(&b1), show_bundle(&b2)));
         if i % 8 == 0 { emit(ctx, rep, format!("id {}", show_bundle(&b1))); }
+        if i % 16 == 3 {
+            // sources that differ in ONE character a printing routine might drop, fold or escape: control characters,
+            // white space, zero-width and combining characters, case — different endpoints, so different IDs
+            const TWINS: [(&str, &str); 14] = [("in\tbox", "inbox"), ("in\u{0}box", "inbox"), ("inbox\u{7f}", "inbox"), ("in\u{1b}[0mbox", "in[0mbox"), ("inbox ", "inbox"), (" inbox", "inbox"),
+                ("in\u{200b}box", "inbox"), ("e\u{301}", "\u{e9}"), ("Inbox", "inbox"), ("in\nbox", "inbox"), ("in\r\nbox", "in\nbox"), ("in%09box", "in\tbox"), ("in\u{85}box", "inbox"), ("in\u{feff}box", "inbox")];
+            let (x, y) = *rng.pick(&TWINS);
+            let (t, q) = (digits(rng), digits(rng));
+            let fr = rng.chance(1, 3);
+            let mut p1 = mk("dtn://n/x", t, q, fr, 7); let mut p2 = p1.clone();
+            if rng.chance(1, 2) { p1.primary.source = EndpointID::with_dtn(&format!("n/{}", x)).unwrap(); p2.primary.source = EndpointID::with_dtn(&format!("n/{}", y)).unwrap(); }
+            else { p1.primary.source = EndpointID::with_dtn(&format!("{}/s", x)).unwrap(); p2.primary.source = EndpointID::with_dtn(&format!("{}/s", y)).unwrap(); }
+            emit(ctx, rep, format!("idpair {} | {}", show_bundle(&p1), show_bundle(&p2)));
+        }
+        if i % 16 == 5 {
+            // fragments whose payload happens to be as long as the total data length (offset 0 and > 0): still
+            // fragments, still named with their offset
+            let total = 1 + rng.below(40);
+            let off = if rng.chance(1, 2) { 0 } else { rng.below(5) };
+            let mut f = mk(&format!("dtn://n/{}", svc), a, b, true, off);
+            f.primary.total_data_length = total;
+            f.set_payload(rng.bytes(total as usize));
+            let mut whole = f.clone(); whole.primary.bundle_control_flags &= !1; whole.primary.fragmentation_offset = 0; whole.primary.total_data_length = 0;
+            emit(ctx, rep, format!("idpair {} | {}", show_bundle(&f), show_bundle(&whole)));
+            emit(ctx, rep, format!("id {}", show_bundle(&f)));
+        }
         if i % 3 == 1 {
             // C13: the reference string of status reports about b1 (whole bundles, first and later fragments)
             let fl = if b1.primary.bundle_control_flags & 1 != 0 { 1 + rng.u64b() / 2 } else { 0 };
